@@ -142,6 +142,33 @@ theorem shape_hashToG1 : Shape.hashToG1 = [
   "return &bn_curve.G1{}"
 ] := rfl
 
+/-- bn256.go: the try-and-increment loop of hashToCurvePoint is unbounded and is left only by returning a point is what `Model/Bls14Verify.lean` / `Bls14G1.lean` transcribes. -/
+theorem shape_hashToCurvePointLoop : Shape.hashToCurvePointLoop = [
+  "for: init=- cond=- post=- returns-inside=1 statements-after=0"
+] := rfl
+
+/-- bn256.go: hashToCurvePoint is what `Model/Bls14Verify.lean` / `Bls14G1.lean` transcribes. -/
+theorem shape_hashToCurvePoint : Shape.hashToCurvePoint = [
+  "do new(big.Int).SetBytes(sha256.Sum256($0)[:]).Mod(new(big.Int).SetBytes(sha256.Sum256($0)[:]), P)",
+  "stmt *ast.ForStmt: for { xxx := new(big.Int).Mul(x, x) xxx.Mul(xxx, x) t := new(big.Int).Add(xxx, bi_curveB) y := new(big.Int).ModSqrt(t, P) if y != nil { return x, y } x.Add(x, one) }"
+] := rfl
+
+/-- bn256.go: G1.HashToPoint is what `Model/Bls14Verify.lean` / `Bls14G1.lean` transcribes. -/
+theorem shape_hashToPoint : Shape.hashToPoint = [
+  "do x, y := hashToCurvePoint($0)",
+  "do Px, Py := &gfP{}, &gfP{}",
+  "unrecognised-if: if len(x_str) == 32 { Px.Unmarshal(x_str) } else { buf_x := make([]byte, 32) copy(buf_x[32-len(x_str):32], x_str) Px.Unmarshal(buf_x) }",
+  "do montEncode(Px, Px)",
+  "unrecognised-if: if len(y_str) == 32 { Py.Unmarshal(y_str) } else { buf_y := make([]byte, 32) copy(buf_y[32-len(y_str):32], y_str) Py.Unmarshal(buf_y) }",
+  "do montEncode(Py, Py)",
+  "unrecognised-if: if e.p == nil { e.p = &curvePoint{} }",
+  "do $r.p.x.Set(Px)",
+  "do $r.p.y.Set(Py)",
+  "do $r.p.z.Set(newGFp(1))",
+  "do $r.p.t.Set(newGFp(1))",
+  "unrecognised-if: if e.IsValid() { return nil } else { return errors.New(\"hash to point failed.\") }"
+] := rfl
+
 /-- bn_curve.go: package-level variables hashToG1 touches (must stay empty: no cache, no state) is what `Model/Bls14Verify.lean` / `Bls14G1.lean` transcribes. -/
 theorem shape_hashToG1State : Shape.hashToG1State = [] := rfl
 
